@@ -127,8 +127,21 @@ func Normalise(opt LoadOptions, testIdents map[string]bool, loadFn func(map[stri
 		}
 		edits, msgs, bad := inlineRound(pkgs, overlay, testIdents, &counter)
 		log = append(log, msgs...)
-		if bad || len(edits) == 0 {
+		if bad {
 			break
+		}
+		if len(edits) == 0 {
+			// nothing left to inline: unbox results of new struct types, then
+			// replace locals of new struct types by their fields
+			edits, msgs = unboxRound(pkgs, overlay, &counter)
+			log = append(log, msgs...)
+			if len(edits) == 0 {
+				edits, msgs = sraRound(pkgs, overlay)
+				log = append(log, msgs...)
+			}
+			if len(edits) == 0 {
+				break
+			}
 		}
 		prev = map[string][]byte{}
 		for k, v := range overlay {
@@ -874,9 +887,146 @@ func hasNewFunctions(repo string, overlay map[string][]byte) (bool, map[string]b
 						found = true
 					}
 				}
+				if gd, ok := d.(*ast.GenDecl); ok && gd.Tok == token.TYPE {
+					for _, sp := range gd.Specs {
+						if ts := sp.(*ast.TypeSpec); !anchorTypes[pkgPath+"."+ts.Name.Name] {
+							if _, isStruct := ts.Type.(*ast.StructType); isStruct {
+								found = true
+							}
+						}
+					}
+				}
 			}
 		}
 	}
 	walk(repo, modulePath)
 	return found, testIdents
+}
+
+// normaliseGoArgs rewrites `go func(p T) { … }(arg)` (and the same with defer)
+// into `{ var p T = arg; go func() { … }() }`: the arguments are still evaluated
+// at the go statement, in order, into variables that are fresh for this
+// execution of the statement, and the literal captures them. The fan-out rules
+// then see the familiar "per-iteration copy captured by the goroutine" shape
+// whichever way the goroutine was handed its inputs. Purely syntactic; returns
+// the files that changed.
+func normaliseGoArgs(repo string, overlay map[string][]byte) map[string][]byte {
+	out := map[string][]byte{}
+	var walk func(dir string)
+	walk = func(dir string) {
+		ents, err := os.ReadDir(dir)
+		if err != nil {
+			return
+		}
+		for _, e := range ents {
+			name := e.Name()
+			full := dir + "/" + name
+			if e.IsDir() {
+				if strings.HasPrefix(name, ".") || strings.HasPrefix(name, "_") || name == "vendor" || name == "testdata" {
+					continue
+				}
+				walk(full)
+				continue
+			}
+			if !strings.HasSuffix(name, ".go") || strings.HasSuffix(name, "_test.go") {
+				continue
+			}
+			src := readSource(full, overlay)
+			changed := false
+			for round := 0; round < 8; round++ {
+				next, ok := goArgsOnce(full, src)
+				if !ok {
+					break
+				}
+				src, changed = next, true
+			}
+			if changed {
+				out[full] = src
+			}
+		}
+	}
+	walk(repo)
+	return out
+}
+
+// goArgsOnce rewrites the outermost go/defer literals with arguments of one file.
+func goArgsOnce(filename string, src []byte) ([]byte, bool) {
+	fs := token.NewFileSet()
+	f, err := parser.ParseFile(fs, filename, src, parser.SkipObjectResolution)
+	if err != nil {
+		return nil, false
+	}
+	type edit struct {
+		lo, hi int
+		text   string
+	}
+	var edits []edit
+	var visit func(n ast.Node) bool
+	visit = func(n ast.Node) bool {
+		var call *ast.CallExpr
+		kw := ""
+		switch s := n.(type) {
+		case *ast.GoStmt:
+			call, kw = s.Call, "go"
+		case *ast.DeferStmt:
+			call, kw = s.Call, "defer"
+		default:
+			return true
+		}
+		lit, ok := call.Fun.(*ast.FuncLit)
+		if !ok || lit.Type.Params == nil || len(lit.Type.Params.List) == 0 || call.Ellipsis.IsValid() {
+			return true
+		}
+		var names []string
+		var typs []ast.Expr
+		for _, fld := range lit.Type.Params.List {
+			if _, variadic := fld.Type.(*ast.Ellipsis); variadic {
+				return true
+			}
+			if len(fld.Names) == 0 {
+				names = append(names, "_")
+				typs = append(typs, fld.Type)
+			}
+			for _, nm := range fld.Names {
+				names = append(names, nm.Name)
+				typs = append(typs, fld.Type)
+			}
+		}
+		if len(names) != len(call.Args) {
+			return true
+		}
+		off := func(p token.Pos) int { return fs.Position(p).Offset }
+		var b bytes.Buffer
+		b.WriteString("{\n")
+		for i, nm := range names {
+			arg := string(src[off(call.Args[i].Pos()):off(call.Args[i].End())])
+			typ := string(src[off(typs[i].Pos()):off(typs[i].End())])
+			if nm == "_" {
+				fmt.Fprintf(&b, "var _ %s = %s\n", typ, arg)
+			} else {
+				fmt.Fprintf(&b, "var %s %s = %s\n_ = %s\n", nm, typ, arg, nm)
+			}
+		}
+		results := ""
+		if lit.Type.Results != nil {
+			results = " " + string(src[off(lit.Type.Results.Pos()):off(lit.Type.Results.End())])
+		}
+		pos := fs.Position(n.Pos())
+		fmt.Fprintf(&b, "//line %s:%d\n", pos.Filename, pos.Line)
+		fmt.Fprintf(&b, "%s func()%s %s()\n}", kw, results, string(src[off(lit.Body.Pos()):off(lit.Body.End())]))
+		end := fs.Position(n.End())
+		fmt.Fprintf(&b, "\n//line %s:%d", end.Filename, end.Line)
+		edits = append(edits, edit{off(n.Pos()), off(n.End()), b.String()})
+		return false // nested ones wait for the next round
+	}
+	ast.Inspect(f, visit)
+	if len(edits) == 0 {
+		return nil, false
+	}
+	sort.Slice(edits, func(i, j int) bool { return edits[i].lo > edits[j].lo })
+	buf := append([]byte{}, src...)
+	for _, e := range edits {
+		buf = append(buf[:e.lo], append([]byte(e.text), buf[e.hi:]...)...)
+	}
+	return buf, true
 }
